@@ -242,7 +242,8 @@ def run(ctx):
                 e["pretty_name_equal_hint"] = ok_name
         ev.append(e)
         ctx.count_distinct(block[:200])
-    bad = core.tlc_judge(ctx, "SettingsIO", ioc, ev, timeout=2400)
+    canary = dict(ev[0], setting_enums=list(ev[0]["setting_enums"]) + [4242]) if ev else None  # one index too many
+    bad = core.tlc_judge(ctx, "SettingsIO", ioc, ev, timeout=2400, canary=canary)
     for i, failed in bad:
         e = ev[i]
         viol(sorted(failed)[0], {"block_len": len(e["block"]), "block_head": e["block"][:32], "r": e["r"], "failed": failed,
